@@ -228,17 +228,62 @@ func parseNative(out string, n int) ([]lib.Event, error) {
 	return evs, nil
 }
 
-// fixedFamily: (first join kind, second join kind) of  x0 <k1> x1 ON x0.k0a = x1.k1a <k2> x2 ON x0.p0 + x1.p1 = x2.p2
-// over fixedTables(): every outer/inner first join under every second join the grammar allows.
-func fixedFamily() [][2]int {
-	var out [][2]int
+// fixedQ is one member of the deterministic family of CLI queries (independent of the seed).
+type fixedQ struct {
+	tabs         []table
+	steps        []joinStep // left-deep chain (unused when rn)
+	where        []cond
+	rn           bool   // right-nested: x0 <nk[0]> (x1 <nk[1]> x2 ON inner) ON outer
+	nk           [2]int
+	inner, outer []cond
+}
+
+// fixedFamily:
+//  (A) x0 <k1> x1 ON x0.k0a = x1.k1a <k2> x2 ON x0.p0 + x1.p1 = x2.p2 over fixedTables(), for every inner/outer first
+//      join under every second join the grammar allows (computed key over a nested join);
+//  (B) right-nested lookup joins whose innermost ON refers to the outermost table, the middle table giving two rows
+//      per outer row;
+//  (C) an inner join whose key equalities are split between ON and WHERE, with pairs that satisfy only one of them.
+func fixedFamily() []fixedQ {
+	var out []fixedQ
 	for _, k1 := range []int{0, 1, 2, 3} {
 		for _, k2 := range []int{0, 1, 2, 3, 4} {
 			if k2 == 4 && k1 != 0 {
 				continue
 			}
-			out = append(out, [2]int{k1, k2})
+			out = append(out, fixedQ{tabs: fixedTables(), steps: []joinStep{
+				{t: 1, kind: k1, on: []cond{{kind: "eq", i: 0, j: 3}}},
+				{t: 2, kind: k2, on: []cond{{kind: "eqcat", i: 2, j: 5, k: 8}}}}})
 		}
+	}
+	fl := func(x float64) octosql.Value { return octosql.NewFloat(x) }
+	st := func(x string) octosql.Value { return octosql.NewString(x) }
+	three := func() []table {
+		return []table{
+			{cols: []string{"k0a", "k0b", "p0"}, rows: [][]octosql.Value{{fl(1), fl(1), st("u")}, {fl(2), fl(2), st("v")}}},
+			{cols: []string{"k1a", "k1b", "p1"}, rows: [][]octosql.Value{{fl(1), fl(5), st("u")}, {fl(1), fl(6), st("v")}, {fl(2), fl(5), st("w")}, {fl(2), fl(6), st("w")}}},
+			{cols: []string{"k2a", "k2b", "p2"}, rows: [][]octosql.Value{{fl(1), fl(5), st("u")}, {fl(1), fl(6), st("v")}, {fl(2), fl(5), st("w")}, {fl(2), fl(6), st("w")}}},
+		}
+	}
+	for _, nk := range [][2]int{{4, 4}, {4, 0}, {0, 4}, {0, 0}} {
+		inner := []cond{{kind: "eq", i: 4, j: 7}}
+		outer := []cond{{kind: "eq", i: 3, j: 0}}
+		if nk[0] == 4 {
+			inner = append(inner, cond{kind: "eq", i: 1, j: 6}) // x0.k0b = x2.k2a: the innermost side refers to the outermost table
+		} else {
+			outer = append(outer, cond{kind: "eq", i: 1, j: 6})
+		}
+		out = append(out, fixedQ{tabs: three(), rn: true, nk: nk, inner: inner, outer: outer})
+	}
+	two := func() []table {
+		return []table{
+			{cols: []string{"k0a", "k0b", "p0"}, rows: [][]octosql.Value{{fl(1), fl(1), st("u")}, {fl(2), fl(5), st("v")}}},
+			{cols: []string{"k1a", "k1b", "p1"}, rows: [][]octosql.Value{{fl(1), fl(1), st("u")}, {fl(1), fl(5), st("v")}}},
+		}
+	}
+	for _, k := range []int{0, 4} {
+		out = append(out, fixedQ{tabs: two(), steps: []joinStep{{t: 1, kind: k, on: []cond{{kind: "eq", i: 0, j: 3}}}}, where: []cond{{kind: "eq", i: 1, j: 4}}})
+		out = append(out, fixedQ{tabs: two(), steps: []joinStep{{t: 1, kind: k, on: []cond{{kind: "eq", i: 4, j: 1}}}}, where: []cond{{kind: "eq", i: 3, j: 0}}})
 	}
 	return out
 }
@@ -358,8 +403,8 @@ func main() {
 			tabs[ti] = genTable(r, ti, 6, 5-ntab)
 		}
 		if fixedIdx >= 0 {
-			ntab = 3
-			tabs = fixedTables()
+			tabs = fixedFam[fixedIdx].tabs
+			ntab = len(tabs)
 		}
 		if i == 0 { // witness
 			tabs = []table{genTable(r, 0, 1, 3), genTable(r, 1, 1, 3)}
@@ -458,13 +503,28 @@ func main() {
 		}
 		if fixedIdx >= 0 {
 			m := fixedFam[fixedIdx]
-			steps = []joinStep{{t: 1, kind: m[0], on: []cond{{kind: "eq", i: 0, j: 3}}}, {t: 2, kind: m[1], on: []cond{{kind: "eqcat", i: 2, j: 5, k: 8}}}}
-			hasOuter = (m[0] >= 1 && m[0] <= 3) || (m[1] >= 1 && m[1] <= 3)
-			width = 9
-			computedKey = true
+			steps, rightNested, nestedKinds, innerOn, outerOn = m.steps, m.rn, m.nk, m.inner, m.outer
+			if m.rn {
+				steps = []joinStep{{t: 1, kind: 0}, {t: 2, kind: 0, on: append(append([]cond{}, m.inner...), m.outer...)}}
+			}
+			for _, st := range steps {
+				if st.kind >= 1 && st.kind <= 3 {
+					hasOuter = true
+				}
+				for _, c := range st.on {
+					if c.kind == "eqcat" {
+						computedKey = true
+					}
+				}
+			}
+			width = 3 * ntab
 		}
 		var where []cond
 		crossWhere := false
+		if fixedIdx >= 0 {
+			where = fixedFam[fixedIdx].where
+			crossWhere = len(where) > 0
+		}
 		splitOnWhere := !rightNested && len(steps) > 0 && steps[0].kind == 0 // inner stream join: ON gives a key, WHERE adds to it
 		if i != 0 && fixedIdx < 0 && (r.Chance(1, ntab) || (splitOnWhere && r.Chance(1, 2))) {
 			// an equality (sometimes an inequality) between two different tables in WHERE: the optimizer moves such
@@ -611,7 +671,7 @@ func main() {
 				cf.Count("computed_join_key")
 			}
 			if fixedIdx >= 0 {
-				cf.Count("fixed_family_computed_key_over_nested_join")
+				cf.Count("fixed_family_cli")
 			}
 			if opt {
 				cf.Count("optimized")
@@ -680,8 +740,11 @@ func main() {
 			cf.Violation(idx, fmt.Sprintf("the join did not return nil (status %d) on a valid changelog", obs.status), "")
 		}
 	}
-	for _, t := range nodeTemplates() {
+	for ti, t := range nodeTemplates() {
 		for kind := 0; kind < 4; kind++ {
+			if ti >= 5 && kind != 0 { // the phase-switch witness concerns StreamJoin only
+				continue
+			}
 			cfg := config{kind: kind, kl: []int{0}, kr: []int{0}, nl: 2, nr: 2}
 			for _, c := range allChoices(len(t[0]), len(t[1])) {
 				addNode(cfg, t[0], t[1], c, "node_fixed_family_all_schedules")
